@@ -10,22 +10,26 @@ const base64Chars = "ABCDEFGHIJKLMNOPQRSTUVWXYZabcdefghijklmnopqrstuvwxyz0123456
 func encodeVLQ(n int) string {
 	var result strings.Builder
 
-	// Convert to VLQ signed format: if negative, set LSB to 1
+	// Convert to VLQ signed format: magnitude shifted left by one, sign in the least significant
+	// bit. The arithmetic is unsigned (two words) so that deltas of 2^62 and beyond do not overflow.
+	var u, top uint64
 	if n < 0 {
-		n = (-n << 1) | 1
+		m := uint64(-(n + 1)) + 1 // magnitude, also of the smallest int
+		u, top = (m<<1)|1, m>>63
 	} else {
-		n = n << 1
+		u = uint64(n) << 1
 	}
 
 	// Encode in 5-bit chunks with continuation bit
 	for {
-		digit := n & 0x1F // Take 5 bits
-		n >>= 5
-		if n > 0 {
+		digit := u & 0x1F // Take 5 bits
+		u = (u >> 5) | (top << 59)
+		top = 0
+		if u > 0 {
 			digit |= 0x20 // Set continuation bit
 		}
 		result.WriteByte(base64Chars[digit])
-		if n == 0 {
+		if u == 0 {
 			break
 		}
 	}
